@@ -1033,7 +1033,7 @@ class Sym:
                     if path.split('::')[-1] == 'next' and len(args) == 1 and self.iterates_fresh_empty_vec(p, args[0]):
                         # `for x in Vec::new()` (a helper's early `return Vec::new()`): nothing to iterate
                         term = ('agg', 'std::option::Option::None', FrozenDict(()), 0)
-                    applied = self.apply_closure_value(path, args, b) if path.split('::')[-1] in ('call', 'call_mut', 'call_once') and c.get('trait', '').startswith('std::ops::Fn') else None
+                    applied = self.apply_closure_value(path, args, b) if c['path'].split('::')[-1] in ('call', 'call_mut', 'call_once') and c.get('trait', '').startswith('std::ops::Fn') else None
                     if applied is not None:
                         # calling a closure value that is known on this path (a predicate handed to a helper): its single
                         # straight path is evaluated in place
